@@ -79,7 +79,12 @@ def _c17_cases(cases, tier):
     # must be unaffected; also a fault that is never reached
     log2 = dict(kind="log", index=2, dlen=48, hash="sha384", log="nonempty")
     dig2 = dict(kind="digest", index=2, dlen=48, hash="none", log="none")
-    for fault in ("mkdir", "index", "digest"):
+    # event logs of particular lengths (block sizes of a chunked hash): the digest is that of the whole log
+    for n in (1, 47, 48, 49, 127, 128, 129, 4095, 4096, 4097, 65535, 65536, 65537, 131072, 196608, 1 << 20):
+        lr = dict(kind="log", index=n % 4, dlen=48, hash="sha384", log="len%d" % n)
+        cases.append(dict(init="empty", hist=[lr]))
+        cases.append(dict(init="bound0", hist=[lr, lr]))
+    for fault in ("mkdir", "index", "digest", "digestLate"):
         for base in (log2, dig2):
             f = dict(base, fault=fault)
             for init in ("empty", "unrelated", "unbound", "two"):
@@ -287,7 +292,7 @@ TABLE["C20"] = dict(run=_c20, replay=_c20_replay)
 
 # ------------------------------------------------------------------------------------------
 POLICY_INV = "TypeOK ExactlyConforming RefusesMalformed MeansTheSame ExportCase"
-POLICY_ACTIONS = ("Convert", "ExactBytes", "Rtmrs", "AnyMrTd", "MinTee", "MinQe", "MinPce", "Xfam", "TdAttributes", "Finish")
+POLICY_ACTIONS = ("Convert", "QuoteShape", "ExactBytes", "Rtmrs", "AnyMrTd", "MinTee", "MinQe", "MinPce", "Xfam", "TdAttributes", "Finish")
 
 
 def _policy_cfg(tier, focus):
